@@ -393,6 +393,57 @@ def panel_configs(verif_seed):
                 if abs(k) >= n:
                     k = 0
                 out.append({"recipe": mk(n, g.randrange(1 << 20)), "k": k, "rand": rand, "max_iters": mi})
+    return out + panel_configs_structured(verif_seed)
+
+
+def panel_configs_structured(verif_seed):
+    """The estimator as reached through `cola.linalg.diag / trace (A, alg=Hutch(key=...))` on structured operators: the
+    dispatch rules split the request over the parts (sum, blocks and their multiplicities, Kronecker factors, ...) and
+    recombine the parts' estimates; the recombination must still be unbiased for the requested diagonal / trace and exact
+    for diagonal operators with Rademacher probes.  One iteration per call (max_iters=1): no optional stopping."""
+    import random
+    g = random.Random("panel-structured:%d" % verif_seed)
+
+    def G(n, sym="gen"):
+        return {"k": "generic", "n": n, "dtype": "f8", "seed": g.randrange(1 << 20), "sym": sym}
+
+    def D(n):
+        return {"k": "diag", "n": n, "seed": g.randrange(1 << 20), "pos": False}
+
+    def structured(dm):
+        S = (lambda n: G(n, "diagm")) if dm else G
+        out = [("sum", {"k": "sum", "args": [S(4), S(4)]}),
+               ("blockdiag", {"k": "blockdiag", "args": [S(3), S(2)]}),
+               ("blockdiag-mult", {"k": "blockdiag", "args": [S(3), S(2)], "mult": [2, 3]}),
+               ("blockdiag-one-mult", {"k": "blockdiag", "args": [S(3)], "mult": [3]}),
+               ("kron-equal", {"k": "kron", "args": [S(3), S(3)]}),
+               ("kron-unequal", {"k": "kron", "args": [S(2), S(3)]}),
+               ("kron-three", {"k": "kron", "args": [S(2), S(2), S(2)]}),
+               ("kron-same-factor", None),
+               ("kronsum", {"k": "kronsum", "args": [S(3), S(3)]}),
+               ("smul", {"k": "smul", "c": 2.5, "of": S(4)}),
+               ("neg", {"k": "neg", "of": S(4)}),
+               ("product", {"k": "product", "args": [S(3), S(3)]}),
+               ("transpose", {"k": "transpose_cls", "of": S(4)}),
+               ("sum-of-kron-and-diag", {"k": "sum", "args": [{"k": "kron", "args": [S(2), S(2)]}, D(4)]}),
+               ("blockdiag-of-kron", {"k": "blockdiag", "args": [{"k": "kron", "args": [S(2), S(2)]}, S(2)], "mult": [2, 1]}),
+               ("kron-of-dense-and-generic", {"k": "kron", "args": [{"k": "dense", "n": 3, "seed": g.randrange(1 << 20),
+                                                                     "sym": "diagm" if dm else "gen"}, S(3)]})]
+        f = S(3)
+        out[7] = ("kron-same-factor", {"k": "kron", "args": [f, f]})
+        return out
+
+    out = []
+    for name, rec in structured(False):
+        for rand in ("normal", "rademacher"):
+            out.append({"via": "dispatch", "what": "diag", "name": name, "recipe": rec, "k": 0, "rand": rand, "max_iters": 1})
+        out.append({"via": "dispatch", "what": "trace", "name": name, "recipe": rec, "k": 0, "rand": g.choice(["normal", "rademacher"]),
+                    "max_iters": 1})
+    for name, rec in structured(True):  # diagonal operators: exact with Rademacher probes
+        out.append({"via": "dispatch", "what": "diag", "exact": True, "name": name, "recipe": rec, "k": 0, "rand": "rademacher",
+                    "max_iters": g.choice([1, 2])})
+        out.append({"via": "dispatch", "what": "trace", "exact": True, "name": name, "recipe": rec, "k": 0, "rand": "rademacher",
+                    "max_iters": 1})
     return out
 
 
